@@ -192,9 +192,12 @@ func runW6(t *testing.T, job *Job, seed uint64, rp *Replay) RunOut {
 				}
 			}
 			// same location => same device
+			// (by the location the handlers themselves report, not by what the device says about itself)
 			byPhys := map[string]int{}
 			for _, d := range devs {
-				byPhys[d.Phys]++
+				if len(d.Handlers) > 0 {
+					byPhys[d.Handlers[0].DeviceInfo.Phys]++
+				}
 			}
 			for p, n := range byPhys {
 				if n > 1 {
